@@ -90,6 +90,27 @@ Third round (other source files, table UNITS; one generated file per unit):
 Conventions (DESIGN 3): Python ints are Z; a shift count that depends on a parameter gets CPython's `ValueError: negative shift
 count` guard, a count built from object state and literals only is taken as non-negative (class invariant 0 <= prefixlen <=
 width); method parameters are ints unless declared otherwise in WHITELIST; every parameter of a module-level function is declared in FUNCS.
+SRCA (netaddr/ip/sets.py -> coq/Gen/pysrc_sets*_gen.v, units SETS_UNITS; code in the block `SRCA` after class Translator, active for
+these units only):
+* An IPSet object is its only attribute `_cidrs`; that dict (IPNetwork keys, every value True) is the insertion-ordered list of its
+  keys: types `ipset` / `dict`, both `list net`; `x._cidrs` of an IPSet x is x; the state of a method is the leading parameter
+  `self_cidrs` (STATEVARS).  A parameter declared `ipset` is an already constructed IPSet (`hasattr(other, '_cidrs')` is true; a
+  `try: <reads of _cidrs only> / except AttributeError:` is its body).  Dict operations are the symbols py_dict_* of
+  Model/SrcPreludeSets.v (= Sets.dmem / dset / ddel / dfromkeys / dupdate / dict_eqb): `k in d`, `d[k] = True`, `del d[k]` (KeyError),
+  `d.update(e)`, `dict.fromkeys(l, True)`, `d == e`, `{}`, `bool(d)`, `_dict_keys(d)` / `for k in d` (the keys, insertion order; the
+  body may change d only directly before `return` / `break`).  sets_prepare() rewrites these statements to assignments
+  `d = __sets_dict_*(d, ..)` before translation (the names __sets_* are the translator's, not Python's).
+* `sorted(d)` = py_sorted_nets (Sets.sorted: IPNetwork ordering by sort_key(), stable); on IPNetwork objects `a == b` = net_key_eqb
+  (key()), `a < b` = py_net_ltb (sort_key()), `a in b` = the translated IPNetwork.__contains__ on the operand ONet a;
+  `x in <IPSet>` = the translated IPSet.__contains__; `not <IPSet>` = its __nonzero__; the truth value of an int is `!= 0`.
+* `l[i]` on a list = py_index (IndexError; negative i from the end), `l[k:]` = py_list_from k, `n[i]` on an IPNetwork = the
+  translated IPListMixin.__getitem__:int, `sum([<int> for x in xs])` = py_sum (map ..), `IPSet()` / `self.__class__()` = the empty
+  set, `IPRange(a, b)` on two IPAddress objects = py_iprange (the hand model of that constructor), `cidr_merge(l)` = py_cidr_merge,
+  `iprange_to_cidrs(a, b)` on two IPAddress objects = the translated function on py_net_of_addr a, b (its own IPNetwork(start)).
+* `x = IPNetwork(<name>)` is a private copy: `x._prefixlen -= 1` is a record update as long as x is only read as x.<attr> or as the
+  left operand of `in`.  `return <comparison> and <call>` evaluates the call only if the comparison holds.  `assert` is dropped.
+  `for a, b in e` unpacks a fresh loop variable.  `x.m(..)` as a statement on a local IPSet x, for a method m that assigns the
+  state, is `x = x.m(..)`.
 """
 import ast
 import os
@@ -233,6 +254,32 @@ OPERAND = (("OAddr", ("ver", "v")), ("ONet", ("ver", "v", "p")), ("ORng", ("ver"
 KINDCLASS = {"OAddr": "IPAddress", "ONet": "IPNetwork", "ORng": "IPRange"}
 MUTATORS = ("append", "pop")
 PURE_METHODS = ("subnet", "union")      # x.subnet(..) (IPNetwork: a generator over new objects), s.union(t) (a new set): x, s unchanged
+
+# ---- SRCA: netaddr/ip/sets.py (IPSet; checks C07 and C06).  Tables of the sets units; the code is the block `SRCA` after class Translator.
+SETSFILE = "netaddr/ip/sets.py"
+SETS_REQ = " Model.PySlice Model.SrcPreludeSplitter Model.SrcPreludeSets"
+# three units over the same file, in dependency order: queries (C07), two-cursor sweeps (C07), mutators (C06).  A unit may call
+# the definitions of the units before it.  An IPSet parameter (`ipset`) is an already constructed IPSet object = its state.
+SETS_UNITS = [
+    (SETSFILE, "pysrc_sets_gen.v", "sets", SETS_REQ,
+     [("IPSet", m, {}) for m in ("iter_cidrs", "__nonzero__", "size", "__len__", "iscontiguous", "iprange", "clear", "copy")] +
+     [("IPSet", "__contains__", {"ip": "net"})] +
+     [("IPSet", m, {"other": "ipset"}) for m in ("issubset", "issuperset", "__lt__", "__gt__", "__eq__", "__ne__")]),
+]
+UNITS += SETS_UNITS
+FILES = FILES + tuple(u[1] for u in SETS_UNITS)
+SETS_FILES = tuple(u[1] for u in SETS_UNITS)
+STATE["IPSet"] = ()
+STATEVARS["IPSet"] = (("_cidrs", "dict"),)          # the dict `_cidrs` (IPNetwork keys, values True) = the list of its keys
+COQTY.update({"dict": "(list net)", "ipset": "(list net)"})
+SETS_VALUE_TYPES = ("dict", "ipset")
+HASATTR[("ipset", "_cidrs")] = True
+for _u in SETS_FILES:
+    UNIT_NAMES[_u] = {"_sys_maxint": ("int", "ssize_max")}
+# fuel of the while loops of sets.py (the hand model's: Sets.contains_walk runs on Z.to_nat prefixlen + 1)
+FUEL[("IPSet", "__contains__", 1)] = ("supernet._prefixlen", 1)
+RESERVED |= set("py_dict_mem py_dict_set py_dict_del py_dict_fromkeys py_dict_update py_dict_eqb py_dict_popitem py_sorted_nets "
+                "py_net_ltb py_index py_list_from py_sum py_cidr_merge_nets py_iprange py_net_of_addr".split())
 
 
 class Untranslatable(Exception):
@@ -2102,6 +2149,481 @@ class Translator:
             except Untranslatable:
                 pass
         return self
+
+
+# ---- SRCA: netaddr/ip/sets.py (IPSet) ---------------------------------------------------------------------------------
+# Active only for the units of SETS_FILES; the text generated for every other unit is unchanged.  The hooks are installed
+# by wrapping methods of Fn / Module / Translator below (`SRCA hooks`), so that no existing method body is edited.
+# Readings (also in the module docstring, paragraph SRCA):
+# * An IPSet object is its only attribute `_cidrs`; `_cidrs` (a dict with IPNetwork keys, all values True) is the
+#   insertion-ordered list of its keys.  Types `ipset` (the object) and `dict` (its _cidrs), both `list net` in Coq; `x._cidrs`
+#   of an ipset x is x.  The state of a method is `self_cidrs` (STATEVARS).
+# * sets_prepare() rewrites a function of sets.py, before translation, into statements the translator knows:
+#     d[k] = True -> d = __sets_dict_set(d, k);  del d[k] -> d = __sets_dict_del(d, k);  d.update(e) -> d = __sets_dict_update(d, e)
+#     (d: self._cidrs, <name>._cidrs or a name);  for x in <..>._cidrs -> for x in __sets_dict_keys(<..>._cidrs) (the keys in
+#     insertion order; the body may change that dict only directly before `return` / `break`);  for a, b in e: body ->
+#     for sets_itemN in e: a, b = sets_itemN; body;  x.m(..) as a statement, for a local IPSet x and a method m that assigns the
+#     state -> x = x.m(..);  `assert` statements are dropped (they do not run under -O; the hand model has none).
+#   The names __sets_* are not Python names of the file; sets_rhs() turns them into the prelude symbols py_dict_*.
+BY_OUT = {}      # output file -> its Translator (filled by the wrapped Translator.__init__)
+
+
+def _sets_load(node):
+    import copy
+    n = copy.deepcopy(node)
+    for x in ast.walk(n):
+        if hasattr(x, "ctx"):
+            x.ctx = ast.Load()
+    return n
+
+
+def _sets_store(node):
+    n = _sets_load(node)
+    n.ctx = ast.Store()
+    return n
+
+
+def _is_cidrs(node):
+    return isinstance(node, ast.Attribute) and node.attr == "_cidrs" and isinstance(node.value, ast.Name)
+
+
+def _sets_pseudo(name, args, at):
+    return ast.copy_location(ast.Call(func=ast.copy_location(ast.Name(id=name, ctx=ast.Load()), at), args=args, keywords=[]), at)
+
+
+def _sets_mutates(st, d, fn):
+    """does statement st (not looking into nested blocks) change the dict written `d` (dotted path)?"""
+    if isinstance(st, (ast.Assign, ast.AugAssign)):
+        tgts = st.targets if isinstance(st, ast.Assign) else [st.target]
+        return any(dotted(t.value if isinstance(t, ast.Subscript) else t) == d for t in tgts)
+    if isinstance(st, ast.Delete):
+        return any(isinstance(t, ast.Subscript) and dotted(t.value) == d for t in st.targets)
+    if isinstance(st, ast.Expr) and isinstance(st.value, ast.Call) and isinstance(st.value.func, ast.Attribute):
+        f = st.value.func
+        if dotted(f.value) == d:
+            return True
+        if fn is not None and d == "self._cidrs" and dotted(f) == "self." + f.attr and fn.method_mutates(f.attr):
+            return True
+    return False
+
+
+def _sets_check_iteration(loop, d, fn):
+    """a `for` over the keys of dict d: d may be changed in the body only directly before `return` / `break`"""
+    def walk(stmts):
+        for i, st in enumerate(stmts):
+            if _sets_mutates(st, d, fn) and not (i + 1 < len(stmts) and isinstance(stmts[i + 1], (ast.Return, ast.Break))):
+                bad(st, "the dict %s is changed while a loop runs over its keys" % d)
+            for name in ("body", "orelse", "finalbody"):
+                if isinstance(getattr(st, name, None), list):
+                    walk(getattr(st, name))
+            for h in getattr(st, "handlers", []):
+                walk(h.body)
+    walk(loop.body)
+
+
+class SetsPrepare(ast.NodeTransformer):
+    def __init__(self, fn):
+        self.fn, self.n = fn, 0
+
+    @staticmethod
+    def place(t):
+        return isinstance(t, ast.Name) or _is_cidrs(t)
+
+    def visit_FunctionDef(self, f):
+        f = self.generic_visit(f)
+        for n in ast.walk(f):
+            for name in ("body", "orelse"):
+                if isinstance(getattr(n, name, None), list) and not getattr(n, name) and (name == "body"):
+                    setattr(n, name, [ast.copy_location(ast.Pass(), n)])
+        return f
+
+    def visit_Assign(self, st):
+        st = self.generic_visit(st)
+        t = st.targets[0] if len(st.targets) == 1 else None
+        if isinstance(t, ast.Subscript):
+            if not (self.place(t.value) and isinstance(st.value, ast.Constant) and st.value.value is True
+                    and not isinstance(t.slice, ast.Slice)):
+                bad(st, "subscript assignment other than <dict>[k] = True")
+            return ast.copy_location(ast.Assign(targets=[_sets_store(t.value)],
+                                                value=_sets_pseudo("__sets_dict_set", [_sets_load(t.value), t.slice], st)), st)
+        return st
+
+    def visit_Delete(self, st):
+        out = []
+        for t in st.targets:
+            if not (isinstance(t, ast.Subscript) and self.place(t.value) and not isinstance(t.slice, ast.Slice)):
+                bad(st, "del other than del <dict>[k]")
+            out.append(ast.copy_location(ast.Assign(targets=[_sets_store(t.value)],
+                                                    value=_sets_pseudo("__sets_dict_del", [_sets_load(t.value), t.slice], st)), st))
+        return out
+
+    def visit_Assert(self, st):
+        return None
+
+    def visit_Compare(self, n):
+        n = self.generic_visit(n)
+        if (len(n.ops) == 1 and isinstance(n.ops[0], (ast.In, ast.NotIn)) and isinstance(n.comparators[0], ast.Name)
+                and n.comparators[0].id == "self" and self.fn is not None and self.fn.recv == "IPSet"):
+            at = n.comparators[0]       # x in self: the receiver, as the IPSet whose dict is self._cidrs
+            cid = ast.copy_location(ast.Attribute(value=ast.copy_location(ast.Name(id="self", ctx=ast.Load()), at), attr="_cidrs", ctx=ast.Load()), at)
+            n.comparators = [_sets_pseudo("__sets_self", [cid], at)]
+        return n
+
+    def visit_Call(self, n):
+        n = self.generic_visit(n)
+        if dotted(n.func) == "self.__class__" and not n.args and not n.keywords and self.fn is not None and self.fn.recv == "IPSet":
+            n.func = ast.copy_location(ast.Name(id="IPSet", ctx=ast.Load()), n.func)      # the receiver class is IPSet
+        return n
+
+    def visit_Expr(self, st):
+        v = st.value
+        if isinstance(v, ast.Call) and isinstance(v.func, ast.Attribute) and not v.keywords:
+            f = v.func
+            if f.attr == "update" and _is_cidrs(f.value) and len(v.args) == 1:
+                return ast.copy_location(ast.Assign(
+                    targets=[_sets_store(f.value)], value=_sets_pseudo("__sets_dict_update", [_sets_load(f.value), v.args[0]], st)), st)
+            if (isinstance(f.value, ast.Name) and f.value.id != "self" and self.fn is not None and self.fn.recv == "IPSet"
+                    and self.fn.mod.lookup("IPSet", f.attr) and self.fn.method_mutates(f.attr)):
+                v.state_call = True         # x.m(..) for a local IPSet x and a state-assigning m: x = x.m(..)
+                return ast.copy_location(ast.Assign(targets=[_sets_store(f.value)], value=v), st)
+        return self.generic_visit(st)
+
+    def visit_For(self, st):
+        if _is_cidrs(st.iter):
+            _sets_check_iteration(st, dotted(st.iter), self.fn)
+        st = self.generic_visit(st)
+        if _is_cidrs(st.iter):
+            st.iter = _sets_pseudo("__sets_dict_keys", [st.iter], st.iter)
+        if isinstance(st.target, ast.Tuple):
+            self.n += 1
+            name = "sets_item%d" % self.n
+            unpack = ast.copy_location(ast.Assign(targets=[st.target], value=ast.copy_location(ast.Name(id=name, ctx=ast.Load()), st.target)), st.target)
+            st.target = ast.copy_location(ast.Name(id=name, ctx=ast.Store()), st.target)
+            st.body = [unpack] + st.body
+        return st
+
+
+def sets_prepare(f, fn):
+    import copy
+    return ast.fix_missing_locations(SetsPrepare(fn).visit(copy.deepcopy(f)))
+
+
+def _sets_on(self):
+    return self.tr.out in SETS_FILES
+
+
+def sets_ipset_var(self, node, env):
+    return isinstance(node, ast.Name) and node.id in env and env[node.id][0] == "ipset"
+
+
+def sets_rhs(self, node, env):
+    """the expression forms of the sets units; None: not one of them (the general translation applies)"""
+    if isinstance(node, ast.Dict) and not node.keys:
+        return ("dict", "[]")
+    if isinstance(node, ast.Attribute) and sets_ipset_var(self, node.value, env):
+        t = env[node.value.id][1]
+        if node.attr == "_cidrs":
+            return ("dict", t)
+        r = self.mod.lookup("IPSet", node.attr)
+        if r and r[2]:
+            return self.generated(node, "IPSet", node.attr, t, [])
+        bad(node, "attribute %s of an IPSet" % node.attr)
+    if isinstance(node, ast.Call):
+        return sets_call(self, node, env)
+    if isinstance(node, ast.Subscript):
+        snap, pre0 = self.snapshot(), list(self.pre)
+        ty, t = self.ex(node.value, env)
+        sl = node.slice
+        if is_list(ty) and isinstance(sl, ast.Slice):
+            k = const_int(sl.lower) if sl.lower is not None else None
+            if k is not None and k >= 0 and sl.upper is None and sl.step is None:
+                return (("list", ty[1]), "(py_list_from %d %s)" % (k, t))            # l[k:]
+        elif is_list(ty):
+            elem = ty[1].find().t
+            if elem is None:
+                bad(node, "index into a list whose element type is not known yet")
+            return ("out", elem, "(py_index %s %s)" % (t, self.int_(sl, env)))      # l[i]: IndexError outside
+        elif ty == "net" and not isinstance(sl, ast.Slice):
+            t0 = BY_OUT.get("pysrc_listlike_gen.v")                                  # IPNetwork.__getitem__ for an int index
+            if t0 is None:
+                bad(node, "IPNetwork.__getitem__ is not translated")
+            d = t0.get("IPNetwork", "__getitem__:int", node)
+            self.depfns.append(d)
+            return ("out", d.kind, "(%s (nver %s) (width (nver %s)) (nval %s) (nplen %s) %s)" % (d.cname, t, t, t, t, self.int_(sl, env)))
+        self.restore(snap)
+        self.pre = pre0
+        return None
+    if isinstance(node, ast.Compare) and len(node.ops) == 1:
+        op = node.ops[0]
+        snap, pre0 = self.snapshot(), list(self.pre)
+        if isinstance(op, (ast.In, ast.NotIn)):
+            (ta, a), (tb, b) = self.ex(node.left, env), self.ex(node.comparators[0], env)
+            if tb in ("dict", "ipset", "net"):
+                if ta != "net":
+                    bad(node, "membership test of %s" % show(ta))
+                if tb == "dict":
+                    r = ("bool", "(py_dict_mem %s %s)" % (b, a))                     # key lookup
+                elif tb == "ipset":
+                    r = self.generated(node, "IPSet", "__contains__", b, [("net", a)])
+                else:
+                    r = self.generated(node, "IPNetwork", "__contains__", "(nver %s) (width (nver %s)) (nval %s) (nplen %s)" % (b, b, b, b),
+                                       [("operand", "(ONet (nver %s) (nval %s) (nplen %s))" % (a, a, a))])
+                if r[0] == "out":
+                    h = self.fresh()
+                    self.hoist(node, ("bind", h, r[2]))
+                    r = ("bool", h)
+                return ("bool", "(negb %s)" % r[1]) if isinstance(op, ast.NotIn) else r
+        elif isinstance(op, (ast.Eq, ast.NotEq, ast.Lt)):
+            (ta, a), (tb, b) = self.ex(node.left, env), self.ex(node.comparators[0], env)
+            t = None
+            if ta == "net" and tb == "net":         # BaseIP.__eq__ compares key(), BaseIP.__lt__ compares sort_key()
+                t = "(py_net_ltb %s %s)" % (a, b) if isinstance(op, ast.Lt) else "(net_key_eqb %s %s)" % (a, b)
+            elif ta == "dict" and tb == "dict" and not isinstance(op, ast.Lt):
+                t = "(py_dict_eqb %s %s)" % (a, b)
+            if t is not None:
+                return ("bool", "(negb %s)" % t if isinstance(op, ast.NotEq) else t)
+        self.restore(snap)
+        self.pre = pre0
+    return None
+
+
+def sets_call(self, node, env):
+    f = node.func
+    name = f.id if isinstance(f, ast.Name) and f.id not in env else None
+    plain = not node.keywords
+    if name in ("__sets_dict_set", "__sets_dict_del", "__sets_dict_update", "__sets_dict_keys"):
+        (td, d) = self.ex(node.args[0], env)
+        if td != "dict":
+            bad(node, "dict operation on %s" % show(td))
+        if name == "__sets_dict_keys":
+            return (("list", Cell("net")), d)
+        (tk, kt) = self.ex(node.args[1], env)
+        if tk != ("dict" if name == "__sets_dict_update" else "net"):
+            bad(node, "dict operation with %s" % show(tk))
+        if name == "__sets_dict_del":
+            return ("out", "dict", "(py_dict_del %s %s)" % (d, kt))
+        return ("dict", "(%s %s %s)" % ("py_dict_set" if name == "__sets_dict_set" else "py_dict_update", d, kt))
+    if name == "__sets_self":
+        (td, d) = self.ex(node.args[0], env)
+        return ("ipset", d)
+    if name == "_dict_keys" and plain and len(node.args) == 1 and self.mod.imports.get(name) == "netaddr.compat._dict_keys":
+        (td, d) = self.ex(node.args[0], env)            # compat: lambda x: list(x.keys()) (Python 3) / x.keys() (Python 2)
+        if td != "dict":
+            bad(node, "_dict_keys of %s" % show(td))
+        return (("list", Cell("net")), d)
+    if name == "sorted" and plain and len(node.args) == 1 and not self.mod.toplevel("sorted"):
+        snap, pre0 = self.snapshot(), list(self.pre)
+        (td, d) = self.ex(node.args[0], env)
+        if td == "dict":
+            return (("list", Cell("net")), "(py_sorted_nets %s)" % d)   # IPNetwork ordering: BaseIP.__lt__ on sort_key()
+        self.restore(snap)
+        self.pre = pre0
+        return None
+    if name == "bool" and plain and len(node.args) == 1 and not self.mod.toplevel("bool"):
+        snap, pre0 = self.snapshot(), list(self.pre)
+        (td, d) = self.ex(node.args[0], env)
+        if td == "dict":
+            return ("bool", "(py_nonempty %s)" % d)
+        self.restore(snap)
+        self.pre = pre0
+        return None
+    if name == "sum" and plain and len(node.args) == 1 and not self.mod.toplevel("sum") and isinstance(node.args[0], ast.ListComp):
+        lc = node.args[0]                               # sum([<int> for x in xs])
+        g = lc.generators
+        if not (len(g) == 1 and not g[0].ifs and not g[0].is_async and isinstance(g[0].target, ast.Name) and g[0].target.id not in env):
+            bad(node, "sum() of something other than [<int> for x in xs]")
+        it = g[0].iter
+        (tl, l) = self.ex(_sets_pseudo("__sets_dict_keys", [it], it) if (_is_cidrs(it) or (isinstance(it, ast.Name) and env.get(it.id, ("",))[0] == "dict")) else it, env)
+        elem = tl[1].find().t if is_list(tl) else None
+        if elem is None:
+            bad(node, "sum() over %s" % show(tl))
+        cn, lenv = self.bind_local(g[0].target, g[0].target.id, elem, env, it)
+        self.nohoist += 1
+        e = self.int_(lc.elt, lenv)
+        self.nohoist -= 1
+        return ("int", "(py_sum (map (fun %s => %s) %s))" % (cn, e, l))
+    if dotted(f) == "dict.fromkeys" and "dict" not in env and not self.mod.toplevel("dict") and plain and len(node.args) == 2:
+        if not (isinstance(node.args[1], ast.Constant) and node.args[1].value is True):
+            bad(node, "dict.fromkeys(l, v) with v other than True")
+        src = node.args[0]
+        if (isinstance(src, ast.GeneratorExp) and len(src.generators) == 1 and not src.generators[0].ifs and isinstance(src.elt, ast.Name)
+                and isinstance(src.generators[0].target, ast.Name) and src.elt.id == src.generators[0].target.id and src.elt.id not in env):
+            src = src.generators[0].iter                # (x for x in l), consumed at once: l
+        (tl, l) = self.ex(src, env)
+        if not is_list(tl):
+            bad(node, "dict.fromkeys of %s" % show(tl))
+        unify(node, tl, ("list", Cell("net")), "dict.fromkeys")
+        return ("dict", "(py_dict_fromkeys %s)" % l)
+    if plain and not node.args and ((name == "IPSet" and "IPSet" in self.mod.classes) or (dotted(f) == "self.__class__" and self.recv == "IPSet")):
+        return ("ipset", "[]")                          # IPSet(): __init__ with iterable None assigns {}
+    if name == "cidr_merge" and plain and len(node.args) == 1 and self.mod.imports.get(name) == "netaddr.ip.cidr_merge":
+        (tl, l) = self.ex(node.args[0], env)            # not translated: the hand model (SrcPreludeSplitter.py_cidr_merge); a dict = its keys
+        if tl != "dict":
+            if not is_list(tl):
+                bad(node, "cidr_merge of %s" % show(tl))
+            unify(node, tl, ("list", Cell("net")), "cidr_merge")
+        return ("out", ("list", Cell("net")), "(py_cidr_merge %s)" % l)
+    if name == "iprange_to_cidrs" and plain and len(node.args) == 2 and self.mod.imports.get(name) == "netaddr.ip.iprange_to_cidrs":
+        args = [self.ex(x, env) for x in node.args]
+        if all(ty == "obj" for ty, _ in args):          # IPAddress arguments: the callee's IPNetwork(start) makes them /width networks
+            return self.generated(node, None, name, "", [("net", "(py_net_of_addr %s)" % t[3]) for _, t in args])
+        return self.generated(node, None, name, "", args)
+    if name == "IPRange" and plain and len(node.args) == 2 and self.mod.imports.get(name) == "netaddr.ip.IPRange":
+        args = [self.ex(x, env) for x in node.args]     # not translated: the hand model of IPRange.__init__ on two IPAddress objects
+        if any(ty != "obj" for ty, _ in args):
+            bad(node, "IPRange() of something other than two IPAddress objects")
+        return ("out", ("tup", ("int", "int", "int")), "(py_iprange %s %s)" % (args[0][1][3], args[1][1][3]))
+    if isinstance(f, ast.Attribute) and sets_ipset_var(self, f.value, env):
+        r = self.mod.lookup("IPSet", f.attr)            # x.m(..) for an IPSet x other than self
+        if not r or r[2] or node.keywords:
+            bad(node, "call of %s.%s" % (f.value.id, f.attr))
+        return self.generated(node, "IPSet", f.attr, env[f.value.id][1], [self.ex(x, env) for x in node.args])
+    return None
+
+
+def sets_stmt(self, stmts, env, k, after):
+    """the statement forms of the sets units; None: not one of them"""
+    s, rest = stmts[0], list(stmts[1:])
+    go = lambda e: self.block(rest, e, k, after)
+    if isinstance(s, ast.Assign) and len(s.targets) == 1 and _is_cidrs(s.targets[0]) and sets_ipset_var(self, s.targets[0].value, env):
+        x = s.targets[0].value.id                       # x._cidrs = e for a local IPSet x: x is now the IPSet with that dict
+        r = self.rhs(s.value, env)
+        pre = self.take_pre()
+        if (r[1] if r[0] == "out" else r[0]) != "dict":
+            bad(s, "assignment of %s to _cidrs" % show(r[1] if r[0] == "out" else r[0]))
+        cn, env = self.bind_local(s, x, "ipset", env, s.value)
+        return self.wrap(pre, ("bind", cn, r[2], go(env)) if r[0] == "out" else (go(env) if r[1] == cn else ("let", cn, r[1], go(env))))
+    if (isinstance(s, ast.Try) and len(s.handlers) == 1 and dotted(s.handlers[0].type) == "AttributeError" and not s.orelse and not s.finalbody
+            and "AttributeError" not in env and not self.mod.toplevel("AttributeError")
+            and all((_is_cidrs(n) and sets_ipset_var(self, n.value, env)) for st in s.body for n in ast.walk(st) if isinstance(n, ast.Attribute))
+            and not any(isinstance(n, (ast.Call, ast.Subscript, ast.BinOp)) for st in s.body for n in ast.walk(st))):
+        # try: .. / except AttributeError: ..  around a body whose only attribute reads are `_cidrs` of IPSet objects, without calls:
+        # the handler is dead code (the parameter is declared an IPSet)
+        return self.block(s.body + rest, env, k, after)
+    if (isinstance(s, ast.Return) and isinstance(s.value, ast.BoolOp) and isinstance(s.value.op, ast.And) and len(s.value.values) == 2
+            and isinstance(s.value.values[0], ast.Compare) and isinstance(s.value.values[1], ast.Call)):
+        # return <comparison> and <call that can raise>: the call is evaluated only if the comparison holds
+        a, b = s.value.values
+        new = ast.copy_location(ast.If(test=a, body=[ast.copy_location(ast.Return(value=b), s)],
+                                       orelse=[ast.copy_location(ast.Return(value=ast.copy_location(ast.Constant(value=False), s)), s)]), s)
+        return self.block([ast.fix_missing_locations(new)] + rest, env, k, after)
+    return None
+
+
+def sets_owned(self, x):
+    """a local that holds a private copy: every binding is `x = IPNetwork(<name>)` (the copy constructor) and every read is
+    x.<attribute> or the left operand of `x in <dict>`: then `x._prefixlen = e` is a plain update of x"""
+    bases = {id(n.value) for n in ast.walk(self.f) if isinstance(n, ast.Attribute)}
+    bases |= {id(n.left) for n in ast.walk(self.f) if isinstance(n, ast.Compare) and len(n.ops) == 1 and isinstance(n.ops[0], (ast.In, ast.NotIn))}
+    binds = [st for st in ast.walk(self.f) if isinstance(st, (ast.Assign, ast.AugAssign, ast.For, ast.With, ast.NamedExpr))
+             and any(isinstance(n, ast.Name) and n.id == x and isinstance(n.ctx, ast.Store) and id(n) not in bases for n in ast.walk(st))]
+    copyctor = lambda st: (isinstance(st, ast.Assign) and len(st.targets) == 1 and isinstance(st.targets[0], ast.Name) and isinstance(st.value, ast.Call)
+                           and dotted(st.value.func) == "IPNetwork" and len(st.value.args) == 1 and not st.value.keywords
+                           and isinstance(st.value.args[0], ast.Name) and self.mod.imports.get("IPNetwork") == "netaddr.ip.IPNetwork")
+    return (bool(binds) and all(copyctor(st) for st in binds) and x not in [a.arg for a in self.f.args.args]
+            and all(id(n) in bases for n in ast.walk(self.f) if isinstance(n, ast.Name) and n.id == x and isinstance(n.ctx, ast.Load)))
+
+
+# ---- SRCA hooks
+_is_value0 = is_value
+
+
+def is_value(t):
+    return t in SETS_VALUE_TYPES or _is_value0(t)
+
+
+def _wrap(cls, name):
+    def deco(new):
+        old = getattr(cls, name)
+
+        def wrapped(self, *a, **kw):
+            return new(old, self, *a, **kw)
+        wrapped.__name__ = name
+        setattr(cls, name, wrapped)
+        return new
+    return deco
+
+
+@_wrap(Fn, "rhs")
+def _srca_rhs(old, self, node, env):
+    if _sets_on(self):
+        r = sets_rhs(self, node, env)
+        if r is not None:
+            self.size += 1
+            return r
+    return old(self, node, env)
+
+
+@_wrap(Fn, "bool_")
+def _srca_bool(old, self, node, env):
+    if not _sets_on(self):
+        return old(self, node, env)
+    ty, t = self.ex(node, env)
+    if ty == "bool":
+        return t
+    if ty == "int":
+        return "(negb (%s =? 0))" % t                   # truth value of an int
+    if is_list(ty) or ty == "dict":
+        return "(py_nonempty %s)" % t
+    if ty == "ipset":                                   # truth value of an IPSet: its __nonzero__ / __bool__
+        r = self.generated(node, "IPSet", "__nonzero__", t, [])
+        if r[0] == "out":
+            bad(node, "IPSet.__nonzero__ can raise")
+        return r[1]
+    bad(node, "bool expression expected, got %s" % show(ty))
+
+
+@_wrap(Fn, "block")
+def _srca_block(old, self, stmts, env, k, after):
+    if stmts and _sets_on(self):
+        r = sets_stmt(self, stmts, env, k, after)
+        if r is not None:
+            return r
+    return old(self, stmts, env, k, after)
+
+
+@_wrap(Fn, "owned")
+def _srca_owned(old, self, x):
+    return (_sets_on(self) and sets_owned(self, x)) or old(self, x)
+
+
+@_wrap(Fn, "method_mutates")
+def _srca_method_mutates(old, self, name, seen=()):
+    if old(self, name, seen):
+        return True
+    r = self.mod.lookup(self.recv, name) if self.recv == "IPSet" else None
+    if r is None:
+        return False
+    paths = {"self." + a for a, _ in STATEVARS[self.recv]}      # self._cidrs[k] = True / del self._cidrs[k]
+    return any(isinstance(n, ast.Subscript) and not isinstance(n.ctx, ast.Load) and dotted(n.value) in paths for n in ast.walk(r[1]))
+
+
+@_wrap(Fn, "state_as_locals")
+def _srca_state_as_locals(old, self, f):
+    return old(self, sets_prepare(f, self) if self.recv == "IPSet" else f)
+
+
+@_wrap(Module, "function")
+def _srca_function(old, self, name):
+    f = old(self, name)
+    return sets_prepare(f, None) if self.fn == SETSFILE else f
+
+
+@_wrap(Translator, "__init__")
+def _srca_tr_init(old, self, *a, **kw):
+    old(self, *a, **kw)
+    if self.out:
+        BY_OUT[self.out] = self
+
+
+@_wrap(Translator, "get")
+def _srca_tr_get(old, self, recv, name, node=None):
+    if self.out in SETS_FILES and not any(w[:2] == (recv, name) for w in self.specs):
+        for out in SETS_FILES:                          # a definition of an earlier sets unit
+            t = BY_OUT.get(out)
+            if t is not None and t is not self and any(w[:2] == (recv, name) for w in t.specs):
+                return t.get(recv, name, node)
+    return old(self, recv, name, node)
 
 
 def constants(strategy=STRATEGY):
